@@ -762,6 +762,7 @@ Proof.
     eapply stale_frames; [ | | exact Inv].
     + intros f Hf _. apply in_app_iff. left. exact Hf.
     + intros f Hf Hc. apply in_app_iff in Hf. destruct Hf as [Hf|[<-|[]]]; [exact Hf | discriminate].
+  - simpl in H. destruct (Nat.ltb r (length (s_rrs s))); [|discriminate]. inversion H; subst; clear H. exact Inv.
 Qed.
 
 Lemma init_nodes_val : forall k j n, n_val (getn (init_nodes k j) n) = [].
